@@ -6,6 +6,7 @@ use vstd::arithmetic::mul::*;
 use vstd::arithmetic::div_mod::*;
 use vstd::bits::*;
 use core::cmp::Ordering;
+use vstd::std_specs::cmp::*;
 verus! {
 //@ include lib/base.rs
 //@ include lib/lvr.rs
@@ -281,6 +282,179 @@ pub fn mul_nx1(lhs: &mut [u64], a: u64) -> /*+*/(r:/*-*/ u64/*+*/)
     }
     /*+*/proof { assert(final(lhs)@ =~= done); }/*-*/
     carry
+}
+//@ end
+
+//@ extract src/algorithms/mul.rs fn addmul_nx1
+pub fn addmul_nx1(lhs: &mut [u64], a: &[u64], b: u64) -> /*+*/(r:/*-*/ u64/*+*/)
+    requires old(lhs).len() == a.len()
+    ensures final(lhs).len() == old(lhs).len(),
+        lvr(final(lhs)@, 0, a.len() as int) + r as int * bp(a.len() as int)
+            == lvr(old(lhs)@, 0, a.len() as int) + lvr(a@, 0, a.len() as int) * b as int/*-*/
+{
+    vassert (lhs.len() == a.len() );
+    let mut carry = 0;
+    /*+*/proof {
+        assert(bp(0) == 1);
+        assert(carry as int * bp(0) == 0) by(nonlinear_arith) requires carry == 0;
+        assert(lvr(a@, 0, 0) * b as int == 0) by(nonlinear_arith) requires lvr(a@, 0, 0) == 0;
+    }/*-*/
+    for i in 0..a.len()
+        /*+*/invariant
+            lhs.len() == a.len(), old(lhs).len() == a.len(),
+            lvr(lhs@, 0, i as int) + carry as int * bp(i as int) == lvr(old(lhs)@, 0, i as int) + lvr(a@, 0, i as int) * b as int,
+            forall|j: int| i <= j < a.len() ==> lhs@[j] == old(lhs)@[j],/*-*/
+    {
+        /*+*/let ghost prev = lhs@;
+        let ghost c0 = carry;/*-*/
+        let ( t0_0 , t0_1 ) = u128::muladd2(a[i], b, carry, lhs[i]).split();lhs[i] = t0_0 ; carry = t0_1 ;
+        /*+*/proof {
+            let w = bp(i as int);
+            lemma_lvr_ext(prev, lhs@, 0, i as int);
+            lemma_lvr_push(lhs@, 0, i as int);
+            lemma_lvr_push(old(lhs)@, 0, i as int);
+            lemma_lvr_push(a@, 0, i as int);
+            assert(bp(i as int + 1) == B * w);
+            let ai = a@[i as int] as int; let li = old(lhs)@[i as int] as int;
+            assert(w * t0_0 as int + t0_1 as int * (B * w) == (w * ai) * b as int + c0 as int * w + w * li) by(nonlinear_arith)
+                requires t0_0 as int + t0_1 as int * B == ai * b as int + c0 as int + li;
+            assert((lvr(a@, 0, i as int) + w * ai) * b as int == lvr(a@, 0, i as int) * b as int + (w * ai) * b as int) by(nonlinear_arith);
+        }/*-*/
+    }
+    carry
+}
+//@ end
+
+//@ extract src/algorithms/mul.rs fn submul_nx1
+pub fn submul_nx1(lhs: &mut [u64], a: &[u64], b: u64) -> /*+*/(r:/*-*/ u64/*+*/)
+    requires old(lhs).len() == a.len()
+    ensures final(lhs).len() == old(lhs).len(),
+        lvr(final(lhs)@, 0, a.len() as int) - r as int * bp(a.len() as int)
+            == lvr(old(lhs)@, 0, a.len() as int) - lvr(a@, 0, a.len() as int) * b as int/*-*/
+{
+    vassert (lhs.len() == a.len() );
+    let mut carry = 0;
+    let mut borrow = 0;
+    /*+*/proof {
+        assert(bp(0) == 1);
+        assert((borrow as int + carry as int) * bp(0) == 0) by(nonlinear_arith) requires carry == 0, borrow == 0;
+        assert(lvr(a@, 0, 0) * b as int == 0) by(nonlinear_arith) requires lvr(a@, 0, 0) == 0;
+    }/*-*/
+    for i in 0..a.len()
+        /*+*/invariant
+            lhs.len() == a.len(), old(lhs).len() == a.len(), borrow <= 1,
+            carry as int <= B - 2,
+            lvr(lhs@, 0, i as int) - (borrow as int + carry as int) * bp(i as int) == lvr(old(lhs)@, 0, i as int) - lvr(a@, 0, i as int) * b as int,
+            forall|j: int| i <= j < a.len() ==> lhs@[j] == old(lhs)@[j],/*-*/
+    {
+        /*+*/let ghost prev = lhs@;
+        let ghost c0 = carry;
+        let ghost b0 = borrow;/*-*/
+        let limb;
+        let ( t0_0 , t0_1 ) = u128::muladd(a[i], b, carry).split();limb = t0_0 ; carry = t0_1 ;
+        let ( t1_0 , t1_1 ) = sbb(lhs[i], limb, borrow);lhs[i] = t1_0 ; borrow = t1_1 ;
+        /*+*/proof {
+            let w = bp(i as int);
+            lemma_lvr_ext(prev, lhs@, 0, i as int);
+            lemma_lvr_push(lhs@, 0, i as int);
+            lemma_lvr_push(old(lhs)@, 0, i as int);
+            lemma_lvr_push(a@, 0, i as int);
+            assert(bp(i as int + 1) == B * w);
+            let ai = a@[i as int] as int; let li = old(lhs)@[i as int] as int;
+            // carry' = floor((ai*b + c0)/B) <= B-2
+            lemma_mul_u64_bound(a@[i as int], b);
+            assert(t0_1 as int <= B - 2) by(nonlinear_arith)
+                requires t0_0 as int + t0_1 as int * B == ai * b as int + c0 as int, ai * b as int <= (B - 1) * (B - 1), 0 <= c0 as int <= B - 2, t0_0 as int >= 0;
+            assert(w * t1_0 as int - (t1_1 as int + t0_1 as int) * (B * w) == w * li - (w * ai) * b as int - (b0 as int + c0 as int) * w) by(nonlinear_arith)
+                requires t0_0 as int + t0_1 as int * B == ai * b as int + c0 as int,
+                    t1_0 as int - t1_1 as int * B == li - t0_0 as int - b0 as int;
+            assert((lvr(a@, 0, i as int) + w * ai) * b as int == lvr(a@, 0, i as int) * b as int + (w * ai) * b as int) by(nonlinear_arith);
+        }/*-*/
+    }
+    borrow + carry
+}
+//@ end
+
+//@ extract src/algorithms/mul.rs fn add_nx1
+// ASSUMED contract (label A): the early `return 0` inside a loop over `iter_mut()` needs the fact that dropping a
+// slice iterator leaves the unvisited elements unchanged, for which vstd has no resolution axiom. The contract is
+// discharged per length by Kani (c15::c15_add_nx1_*: all lengths 0..=6, all contents - complete per length).
+/*+*/#[verifier::external_body]/*-*/
+pub fn add_nx1(lhs: &mut [u64], a: u64) -> /*+*/(r:/*-*/ u64/*+*/)
+    ensures final(lhs).len() == old(lhs).len(), old(lhs).len() > 0 ==> r <= 1,
+        lvr(final(lhs)@, 0, old(lhs).len() as int) + r as int * bp(old(lhs).len() as int)
+            == lvr(old(lhs)@, 0, old(lhs).len() as int) + a as int/*-*/
+{ let mut a = a ;
+    if a == 0 {
+        return 0;
+    }
+    for lhs in lhs {
+        let ( t0_0 , t0_1 ) = u128::add(*lhs, a).split();*lhs = t0_0 ; a = t0_1 ;
+        if a == 0 {
+            return 0;
+        }
+    }
+    a
+}
+//@ end
+
+
+pub assume_specification<T: Ord> [core::cmp::min::<T>] (a: T, b: T) -> (r: T)
+    ensures <T as OrdSpec>::obeys_cmp_spec() ==> r == (if OrdSpec::cmp_spec(&a, &b) == Ordering::Greater { b } else { a });
+
+pub assume_specification [<i8 as core::convert::From<bool>>::from] (b: bool) -> (r: i8)
+    ensures r == (if b { 1i8 } else { 0i8 });
+
+pub open spec fn ord_of(a: int, b: int) -> Ordering {
+    if a < b { Ordering::Less } else if a == b { Ordering::Equal } else { Ordering::Greater }
+}
+
+// the most significant differing limb decides
+pub proof fn lemma_cmp_high(s: Seq<u64>, t: Seq<u64>, i: int, n: int)
+    requires 0 <= i < n, n <= s.len(), n <= t.len(), forall|j: int| i < j < n ==> s[j] == t[j], s[i] != t[i]
+    ensures (s[i] < t[i]) ==> lvr(s, 0, n) < lvr(t, 0, n), (s[i] > t[i]) ==> lvr(s, 0, n) > lvr(t, 0, n)
+{
+    lemma_lvr_split(s, 0, i, n); lemma_lvr_split(t, 0, i, n);
+    lemma_lvr_split(s, i, i + 1, n); lemma_lvr_split(t, i, i + 1, n);
+    lemma_lvr_ext(s, t, i + 1, n);
+    lemma_lvr_bound(s, 0, i); lemma_lvr_bound(t, 0, i);
+    lemma_lvr_bound(s, i + 1, n);
+    assert(lvr(s, i, i + 1) == s[i] as int) by { assert(lvr(s, i + 1, i + 1) == 0); assert(B * 0 == 0); }
+    assert(lvr(t, i, i + 1) == t[i] as int) by { assert(lvr(t, i + 1, i + 1) == 0); assert(B * 0 == 0); }
+    assert(bp(1) == B) by { assert(bp(0) == 1); }
+    let w = bp(i); let h = lvr(s, i + 1, n);
+    lemma_bp_pos(i);
+    let a = lvr(s, 0, i); let b = lvr(t, 0, i);
+    let x = s[i] as int; let y = t[i] as int;
+    assert(x < y ==> a + w * (x + B * h) < b + w * (y + B * h)) by(nonlinear_arith)
+        requires 0 <= a < w, 0 <= b < w, w >= 1;
+    assert(x > y ==> a + w * (x + B * h) > b + w * (y + B * h)) by(nonlinear_arith)
+        requires 0 <= a < w, 0 <= b < w, w >= 1;
+}
+
+//@ extract src/algorithms/mod.rs fn cmp
+pub fn cmp(left: &[u64], right: &[u64]) -> /*+*/(r:/*-*/ Ordering/*+*/)
+    ensures left.len() == right.len() ==> r == ord_of(lvr(left@, 0, left.len() as int), lvr(right@, 0, left.len() as int))/*-*/
+{
+    let l = core::cmp::min(left.len(), right.len());
+    let lhs = &left[..l];
+    let rhs = &right[..l];
+    for i in /*+*/iter:/*-*/ (0..l).rev()
+        /*+*/invariant
+            l <= left.len(), l <= right.len(), lhs@ == left@.subrange(0, l as int), rhs@ == right@.subrange(0, l as int),
+            iter.seq().len() == l, left.len() == right.len() ==> l == left.len(),
+            forall|j: int| l - iter.index@ <= j < l ==> left@[j] == right@[j],/*-*/
+    {
+        /*+*/proof { assert(i == l - 1 - iter.index@); assert(left.len() == right.len() ==> l == left.len()); assert(lhs@[i as int] == left@[i as int]); assert(rhs@[i as int] == right@[i as int]); if left@[i as int] != right@[i as int] { lemma_cmp_high(left@, right@, i as int, l as int); } }/*-*/
+        match i8::from(lhs[i] > rhs[i]) - i8::from(lhs[i] < rhs[i]) {
+            -1 => return Ordering::Less,
+            0 => {}
+            1 => return Ordering::Greater,
+            _ => vpanic ( ),
+        }
+    }
+    /*+*/proof { if left.len() == right.len() { lemma_lvr_ext(left@, right@, 0, l as int); } }/*-*/
+    left.len().cmp(&right.len())
 }
 //@ end
 
